@@ -55,9 +55,10 @@ def p_node(n, opts=None):
             return "[p%s:{{ %s }}]" % (n["p"], n["n"])
         return "{{ %s }}" % n["n"]
     if t == "isfilled":
+        key = re.sub(r"[^\w]", "_", n["name"])  # documented: characters that cannot be in a variable name become "_"
         if n.get("p") is not None:
-            return "[p%s:{{ component_vars.is_filled.%s }}]" % (n["p"], n["name"])
-        return "{{ component_vars.is_filled.%s }}" % n["name"]
+            return "[p%s:{{ component_vars.is_filled.%s }}]" % (n["p"], key)
+        return "{{ component_vars.is_filled.%s }}" % key
     if t == "if":
         return "{%% if %s %%}%s{%% else %%}%s{%% endif %%}" % (n["n"], p_nodes(n["a"], opts), p_nodes(n["b"], opts))
     if t == "for":
@@ -294,6 +295,11 @@ class FillClosure:
         self.dflt_var = dflt_var
 
 
+def _no_comments(s):
+    """Text as Django renders it: {# ... #} comments in the source produce no output."""
+    return re.sub(r"\{#.*?#\}", "", s) if "{#" in s else s
+
+
 class SlotRefModel:
     def __init__(self, interp, slot, env, owner, prov, parent, alias_names=()):
         self.args = (interp, slot, env, owner, prov, parent)
@@ -409,7 +415,7 @@ class Interp:
             raise ModelBudget()
         t = n["t"]
         if t == "text" or t == "raw":
-            return [n["s"]]
+            return [_no_comments(n["s"])]
         if t == "elem":
             children = [] if n.get("void") else self.nodes(n["c"], env, owner, prov, parent)
             echo = None
@@ -510,7 +516,7 @@ class Interp:
                 b2.update(b)
                 self.collect_fills(n["c"], env + [Layer(b, "with")], b2, acc, owner)
             elif t == "text":
-                if n["s"].strip():
+                if _no_comments(n["s"]).strip():
                     raise ExpectedError("text next to fill tags")
             elif t in ("comp", "slot"):
                 pass  # render to nothing during fill extraction
@@ -528,6 +534,8 @@ class Interp:
         kwargs = {k: self.expr(env, e) for k, e in n["kwargs"].items()}
         inst.kwargs = kwargs
         body = n.get("body")
+        if body is not None and body["c"] and all(x["t"] == "text" and not _no_comments(x["s"]).strip() for x in body["c"]):
+            body = None  # only whitespace (and {# comments #}) between the tags: documented as "no content", not a fill
         if body is not None and body["c"]:
             if body["kind"] == "implicit":
                 inst.fills["default"] = FillClosure(body["c"], owner, env, {}, None, None)
